@@ -1179,6 +1179,21 @@ def result_edges(b, r):
                 if v in edges:
                     out['err'].append(edges[v])
     out['payload'].append((known, [(('v', 'Ok'), ('f', '0')), (('v', 'Some'), ('f', '0'))]))
+    # `if r.is_err() { .. }` / is_ok / is_some / is_none on a borrow of r
+    for (bi, c, te, fe, cs) in b.switches_on_call(lambda c: re.search(r'(Result|Option)::<.*>::(is_err|is_ok|is_some|is_none)$', c.name) is not None):
+        al = cs.arg_local(0)
+        hit = al in known and () in known.get(al, ())
+        if not hit and al is not None:
+            for o in b.trace_local(al):
+                if o[0] == 'rv' and o[2]['k'] == 'ref' and place_path(known, o[2]['place']) == [()]:
+                    hit = True
+        if hit:
+            if cs.name.endswith('is_err') or cs.name.endswith('is_none'):
+                out['err'].append(te)
+                out['ok'].append(fe)
+            else:
+                out['ok'].append(te)
+                out['err'].append(fe)
     for c2 in b.calls:
         if c2.name.endswith('::branch') and c2.arg_local(0) in known and () in known.get(c2.arg_local(0), ()) and c2.dest_local() is not None:
             k2 = alias_paths(b, c2.dest_local())
